@@ -315,7 +315,8 @@ def constcast_lint(facts, res):
     R = "C06.3.const-cast"
     n = 0
     for fn in facts.functions:
-        if fn.get("inst") or not tbf.rel(facts.path_of(fn)).startswith("src/kernels/"):
+        # kernels and everything they call during an execution (periodic shifter and other utilities, the wrappers and executors)
+        if fn.get("inst") or not any(tbf.rel(facts.path_of(fn)).startswith(d) for d in ("src/kernels/", "src/utils/", "src/algorithms/")):
             continue
         b = tbf.body(fn)
         if b is None:
